@@ -45,6 +45,10 @@ CHECKS = {
          "Exploration. 'Interpreter binaries' of every length over one (quick) / two (thorough) full periods of the scanner geometry (4096-byte blocks + 28-byte look-ahead), with '#'-free, '#'-per-block, dense-'#' fillers and 30 marker fragments planted at every gap 0..32 before the true marker around each read boundary, are packed with 6 project trees (flat, nested, empty file, all 256 byte values, names with spaces, large). RunPackedBinary (through the verif IO hook) must call exit with the entry's result, the recovered file map (pack.files hook) must equal the tree byte for byte, and the archive is re-opened independently at len(binary)+len(marker). A sample of every enumeration goes through the real Pack (byte-identical to the assembled target).",
          "Precondition: the filler never contains the complete marker (a real interpreter binary does not: the marker is assembled at run time). Most sweep cases assemble binary+marker+reference archive instead of calling Pack (checked byte-identical on the sampled Pack cases).",
          "DESIGN.md 4/C20"),
+ "C06": ("exhaustive built-in x argument-vector and operator x operand matrices over a value universe + directed access/assignment cases + rapid ill-typed mutations of generated programs + sink/event cases through ProcessEvent and the real pool + native fuzzing under a step budget; totality oracle",
+         "Exploration. Every entry of InbuildFuncMap (and log/error/debug, math.*) is called with every argument vector of length 0-2 (thorough: 0-3) over a 26-value universe (null, booleans, boundary numbers incl. +-Inf/NaN/-0/1e+308, strings, lists, maps with number/text/nested keys, a function, an object), every binary/prefix operator with every operand pair, container reads/writes with every index kind on every container kind (incl. writes whose right side shrinks the container between the read and the write), multi-assignment and loop destructuring mismatches, calls of non-functions, raise with 0-4 arguments, new with malformed templates; rapid mutates programs from the C04/C05 generators by replacing sub-expressions with arbitrary universe values; sink declarations take arbitrary attribute values and events arbitrary state/scope values (through ProcessEvent under recover and, for a sample, through the real pool with a write-ahead case file). Every candidate runs bare and wrapped in try/except: no panic, no process exit; an error raised inside try must be catchable there; a failing sink fails only its invocation and a following event is still processed. Thorough adds FuzzEval (source bytes under a 20 000-visit step budget).",
+         "setPulseTrigger is only called with argument vectors that fail its validation (it starts an immortal goroutine); sleep only with <= 1 ms. A panic on a pool worker cannot be recovered in-process: the driver reports the write-ahead case (signature crash:inflight).",
+         "DESIGN.md 4/C06"),
  "C07": ("rapid-generated byte strings, token soups and mutations of valid programs + exhaustive truncation/stray-token enumerations + native fuzzing; tree schema, error-position and goroutine-leak oracles",
          "Exploration. Inputs: random bytes (invalid UTF-8, NUL), token soups over the complete vocabulary, and mutations (delete/duplicate/swap tokens, unbalanced brackets, stray ; ) } ], truncation at every token) of a 292-program corpus and of generated nested programs; every truncation and every stray-token insertion of the corpus is enumerated. Oracle: Parse returns within a watchdog bound; exactly one of (tree, error); errors are parser.Error of a documented type positioned inside the input; trees have no nil node, known node kinds and the child arities the walkers index unchecked (schema extracted from interpreter/rt_*.go and prettyprinter.go), and PrettyPrint / ParseWithRuntime+Validate do not panic on them; no goroutine with parser frames stays in 'chan send' after the call. Thorough adds FuzzParse (431 seeds).",
          "Parses run one at a time in an otherwise idle process (goroutine accounting). A hang verdict needs 20 watchdog ticks; a goroutine-count rise without a parked parser goroutine is only counted.",
